@@ -1285,7 +1285,18 @@ pub fn gen_c20(cx: &mut Ctx) {
         let mut m = BTreeMap::new();
         m.insert(s("a"), y.clone());
         if !matches!(&y, Val::B(b) if b.inputs().contains("a")) {
-            calls.push((s("subst"), vec![Arg::F(x), Arg::M(m)]));
+            calls.push((s("subst"), vec![Arg::F(x.clone()), Arg::M(m.clone())]));
+            // two keys whose replacements mention each other's key: the order in which an implementation
+            // walks the keys must not show
+            let mut m2 = m.clone();
+            m2.insert(s("b"), fn_as(kind, &names(&["a"]), &[false, true]));
+            calls.push((s("subst"), vec![Arg::F(x.clone()), Arg::M(m2)]));
+        }
+        {
+            let mut swap = BTreeMap::new();
+            swap.insert(s("a"), fn_as(kind, &names(&["b"]), &[false, true]));
+            swap.insert(s("b"), fn_as(kind, &names(&["a"]), &[false, true]));
+            calls.push((s("subst"), vec![Arg::F(x), Arg::M(swap)]));
         }
     }
     // shuffle the order of the (independent) calls
